@@ -47,8 +47,7 @@ class Middleware:
             kwargs = {
                 key: value
                 for key, value in kwargs.items()
-                if key in argspec.args
-                or (key in argspec.defaults if argspec.defaults is not None else False)
+                if key in argspec.args or key in argspec.kwonlyargs
             }
             # try to call the function
             try:
